@@ -995,6 +995,9 @@ theorem portSet_union_plain {p o : PortSet} (hn : o.named = []) (he : o.excluded
 
 theorem plain_addConnection {c : ConnSet} (hc : Plain c) (pr : Proto) {ps : PortSet}
     (hps : ps.named = [] ∧ ps.excluded = []) : Plain (c.addConnection pr ps) := by
+  cases ha : c.allowAll
+  case true => rw [ConnSet.addConnection_of_allowAll ha]; exact hc
+  rw [ConnSet.addConnection_of_not_allowAll ha]
   apply plain_checkIfAll
   unfold ConnSet.addConnectionRaw
   split
